@@ -9,6 +9,8 @@ print("extract:", info)
 mods = sorted({m for p in PROPS.values() for m in p["modules"] + p.get("modules_extra", [])})
 ok, log = vlib.lake_build(["tlsh-model"] + mods)
 print("lake build:", "ok" if ok else "FAILED")
+if ok:
+    vlib.save_good_driver()
 if not ok:
     print(log[-4000:])
 cfgs = sorted({s[0] for p in PROPS.values() for s in p["streams"]["quick"]})
